@@ -549,7 +549,7 @@ func (sk sortedKeys) Less(i, j int) bool {
 	vj := &Value{val: sk[j]}
 	switch {
 	case vi.IsInteger() && vj.IsInteger():
-		return vi.Integer() < vj.Integer()
+		return lessIntegers(vi, vj)
 	case vi.IsFloat() && vj.IsFloat():
 		return vi.Float() < vj.Float()
 	default:
@@ -559,6 +559,31 @@ func (sk sortedKeys) Less(i, j int) bool {
 
 func (sk sortedKeys) Swap(i, j int) {
 	sk[i], sk[j] = sk[j], sk[i]
+}
+
+// lessIntegers orders two integer values of any kind. Unsigned values above
+// the range of int must not pass through Value.Integer(), which would wrap them
+// into negative numbers.
+func lessIntegers(a, b *Value) bool {
+	ua, ub := isUnsigned(a), isUnsigned(b)
+	switch {
+	case ua && ub:
+		return a.getResolvedValue().Uint() < b.getResolvedValue().Uint()
+	case ua:
+		return b.getResolvedValue().Int() > 0 && a.getResolvedValue().Uint() < uint64(b.getResolvedValue().Int())
+	case ub:
+		return a.getResolvedValue().Int() < 0 || uint64(a.getResolvedValue().Int()) < b.getResolvedValue().Uint()
+	default:
+		return a.getResolvedValue().Int() < b.getResolvedValue().Int()
+	}
+}
+
+func isUnsigned(v *Value) bool {
+	switch v.getResolvedValue().Kind() {
+	case reflect.Uint, reflect.Uint8, reflect.Uint16, reflect.Uint32, reflect.Uint64:
+		return true
+	}
+	return false
 }
 
 type valuesList []*Value
@@ -572,7 +597,7 @@ func (vl valuesList) Less(i, j int) bool {
 	vj := vl[j]
 	switch {
 	case vi.IsInteger() && vj.IsInteger():
-		return vi.Integer() < vj.Integer()
+		return lessIntegers(vi, vj)
 	case vi.IsFloat() && vj.IsFloat():
 		return vi.Float() < vj.Float()
 	default:
